@@ -126,30 +126,61 @@ theorem view_write_frame (v : View ν α) (h : v.WF) (hn : v.leafIds.Nodup) (idx
 
 /-- **Linear layouts.**  Whenever a view claims `DataLayout::Linear(order)`:
     `order` is a reordering of the view's dimension names, so `TensorAccess::from_memory_order`
-    succeeds (`DimensionMappings::new` returns a mapping, the contract panic is unreachable); and
-    visiting the view through that access — i.e. in the claimed dimension order — resolves the
-    tuple at row-major position `k` to offset `k` of the single leaf the view is over, for all
-    `k` up to the leaf's element count: the walk is strictly increasing (`ravel_lt_of_lex`) and
-    contiguous, and spans the whole leaf.  Covers `Tensor`, `TensorRefMatrix` over a `Matrix` and
-    over `MatrixRefTensor` of any tensor view (row major and column major), `TensorRename`,
-    `TensorAccess`, `TensorTranspose` (with the repaired `map_linear_data_layout_to_transposed`,
-    fix B-12) in any composition; every other adaptor reports a non-linear layout. -/
+    succeeds (`DimensionMappings::new` returns a mapping, the contract panic is unreachable); the
+    view lies in a single leaf, and visiting it through that access — i.e. in the claimed dimension
+    order — resolves the tuple `idx` to the row-major offset of `idx + starts` within the leaf's
+    full extents `fulls`; hence the walk is *strictly increasing* in iteration order; and when
+    the view has as many elements as the leaf (it spans the whole tensor) `starts = 0` and
+    `fulls` are its own lengths: the walk is `0, 1, 2, …`, contiguous.  Covers `Tensor`,
+    `TensorRefMatrix` over a `Matrix` and over `MatrixRefTensor` of any tensor view, row major and
+    column major, with `MatrixRange`s in between (which forward the layout of a part of the
+    leaf), `TensorRename`, `TensorAccess`, `TensorTranspose` (with the repaired
+    `map_linear_data_layout_to_transposed`), `TensorMap` in any composition; every other adaptor
+    (`MatrixReverse` included) reports a non-linear layout. -/
 theorem layout_linear_increasing (v : View ν α) (h : v.WF) (order : List ν)
     (hl : v.layout = .ok (.linear order)) :
     (∃ m, DimensionMappings.new v.shape order = some m) ∧
     (∀ m, DimensionMappings.new v.shape order = some m →
-      ∃ leaf data, v.leaves = [(leaf, data)] ∧
-        data.length = prod (lens (View.access v m).shape) ∧
+      ∃ (leaf : Nat) (data : List α) (fulls starts : List Nat), v.leaves = [(leaf, data)] ∧
+        data.length = prod fulls ∧
         (∀ idx, inBounds (lens (View.access v m).shape) idx = true →
-          (View.access v m).get idx = .ok (some (leaf, ravel (lens (View.access v m).shape) idx))) ∧
+          (View.access v m).get idx =
+            .ok (some (leaf, ravel fulls (List.zipWith (· + ·) idx starts)))) ∧
         (∀ a b, inBounds (lens (View.access v m).shape) a = true →
           inBounds (lens (View.access v m).shape) b = true → a < b →
-          ravel (lens (View.access v m).shape) a < ravel (lens (View.access v m).shape) b)) := by
+          ravel fulls (List.zipWith (· + ·) a starts) < ravel fulls (List.zipWith (· + ·) b starts)) ∧
+        (prod (lens (View.access v m).shape) = data.length →
+          ∀ idx, inBounds (lens (View.access v m).shape) idx = true →
+            (View.access v m).get idx = .ok (some (leaf, ravel (lens (View.access v m).shape) idx)))) := by
   obtain ⟨h1, h2⟩ := View.layout_memory_order v h order hl
   refine ⟨h1, ?_⟩
   intro m hm
-  obtain ⟨leaf, data, a, b, c⟩ := h2 m hm
-  exact ⟨leaf, data, a, b, c, fun x y hx hy hxy => ravel_lt_of_lex _ x y hx hy hxy⟩
+  obtain ⟨leaf, data, fulls, starts, a, b, hsl0, c, d⟩ := h2 m hm
+  have hD : (View.access v m).shape.length = v.shape.length := by
+    have hok := new_mappingOK (goodShape_iff.1 (View.correct v h).1).1 hm
+    simp only [View.shape]; exact mapShapeToRequested_length hok
+  have hsl : ∀ idx, inBounds (lens (View.access v m).shape) idx = true → idx.length = starts.length := by
+    intro idx hin
+    have h2 := inBounds_length hin
+    simp only [lens_length] at h2
+    omega
+  refine ⟨leaf, data, fulls, starts, a, b, fun idx hin => (c idx hin).2, ?_, ?_⟩
+  · intro x y hx hy hxy
+    have lx := inBounds_length hx
+    have ly := inBounds_length hy
+    exact ravel_lt_of_lex fulls _ _ (c x hx).1 (c y hy).1
+      (lex_zipWith_add x y starts (by omega) (hsl x hx) hxy)
+  · intro hp idx hin
+    obtain ⟨hf, hs0⟩ := d hp
+    rw [(c idx hin).2, hf]
+    have : List.zipWith (· + ·) idx starts = idx := by
+      apply List.ext_getElem (by simp [hsl idx hin])
+      intro k hk1 hk2
+      simp only [List.getElem_zipWith]
+      have hk3 : k < starts.length := by simp only [List.length_zipWith] at hk1; omega
+      have := hs0 _ (List.getElem_mem hk3)
+      omega
+    rw [this]
 
 /-- **The constructors establish the invariant.**  Every validation of the model
     (`Tensor::from`, `TensorRefMatrix::with_names` over a `Matrix` and over `MatrixRefTensor` of a tensor view,
@@ -168,6 +199,7 @@ theorem constructors_establish_wf :
     (∀ (s : View ν α), s.WF → (View.tmap s).WF) ∧    -- `TensorMap::from` validates nothing
     (∀ (s v : View ν α), s.WF →
       (∀ r c, mkMatrixOf s r c = some v → v.WF) ∧
+      (∀ ops r c, mkMatrixStack s ops r c = some v → v.WF) ∧
       (∀ rs, mkRange s rs = some v → v.WF) ∧ (∀ rs, mkRangeStrict s rs = some v → v.WF) ∧
       (∀ rs, mkRangeAll s rs = some v → v.WF) ∧ (∀ rs, mkRangeAllStrict s rs = some v → v.WF) ∧
       (∀ ms, mkMask s ms = some v → v.WF) ∧ (∀ ms, mkMaskStrict s ms = some v → v.WF) ∧
@@ -191,7 +223,7 @@ theorem constructors_establish_wf :
     fun v ns hv hl => ⟨setNames_wf hv hl, fun k h => setNames_panic_unchanged v ns k h⟩,
     fun _ _ _ hv hs' hsrc hl => replaceSource_wf hv hs' hsrc hl⟩
   · intro s v hs
-    exact ⟨fun _ _ h => mkMatrixOf_wf hs h, fun _ h => mkRange_wf hs h, fun _ h => mkRangeStrict_wf hs h, fun _ h => mkRangeAll_wf hs h,
+    exact ⟨fun _ _ h => mkMatrixOf_wf hs h, fun _ _ _ h => mkMatrixStack_wf hs h, fun _ h => mkRange_wf hs h, fun _ h => mkRangeStrict_wf hs h, fun _ h => mkRangeAll_wf hs h,
       fun _ h => mkRangeAllStrict_wf hs h, fun _ h => mkMask_wf hs h, fun _ h => mkMaskStrict_wf hs h,
       fun _ h => mkMaskAll_wf hs h, fun _ h => mkMaskAllStrict_wf hs h, fun _ h => mkIndex_wf hs h,
       fun _ h => mkExpansion_wf hs h, fun _ h => mkRename_wf hs h, fun _ h => mkReverse_wf hs h,
@@ -299,6 +331,26 @@ example : ∀ v, ((mkTensor 1 [(0, 2), (1, 3)] (List.range 6)).bind fun t =>
   simp only [Option.bind_eq_some_iff] at hv
   obtain ⟨t, ht, a, ha, hv⟩ := hv
   exact mkMatrixOf_wf (mkAccess_wf (mkTensor_wf ht (by decide)) ha) hv
+
+/-- a column major matrix (a reordered 3×4 tensor), ranged on both sides, seen as a tensor: the
+    layout is still claimed (column dimension first) and the walk in that order is strictly
+    increasing but no longer contiguous … -/
+example :
+    ((mkTensor 1 [(0, 3), (1, 4)] (List.range 12)).bind fun t =>
+      (t.mkAccess [1, 0]).bind fun a =>
+      (a.mkMatrixStack [.range ⟨1, 9⟩ ⟨0, 2⟩] 7 8).map fun v =>
+        (v.shape, (match v.layout with | .ok l => some l | .panic _ => none),
+         [v.specGet [0, 0], v.specGet [1, 0], v.specGet [0, 1]])) =
+    some ([(7, 3), (8, 2)], some (.linear [8, 7]), [some (1, 1), some (1, 2), some (1, 5)]) := by decide
+
+/-- … reversed in both directions it claims nothing (the seeded change C02-r3m2 made it claim
+    the source's layout while the addresses go downwards) -/
+example :
+    ((mkTensor 1 [(0, 3), (1, 4)] (List.range 12)).bind fun t =>
+      (t.mkAccess [1, 0]).bind fun a =>
+      (a.mkMatrixStack [.range ⟨1, 9⟩ ⟨0, 2⟩, .reverse true true] 7 8).map fun w =>
+        ((match w.layout with | .ok l => some l | .panic _ => none), [w.specGet [0, 0], w.specGet [0, 1]])) =
+    some (some .other, [some (1, 7), some (1, 3)]) := by decide
 
 /-- the legacy formula (unchanged tree) claims `[1, 0, 2]` for the same view: defect #12 -/
 example : mapLinearDataLayoutToTransposedLegacy
